@@ -486,8 +486,12 @@ func runFrame(fr *frame) {
 			fr.visits = map[*ssa.BasicBlock]int{}
 		}
 		fr.visits[fr.block]++
-		if fr.visits[fr.block] > p.eng.cfg.MaxLoop && !p.isInitPath && p.initDepth == 0 {
-			p.abort("unwind", "loop bound %d exceeded in %s block %d (%s)", p.eng.cfg.MaxLoop, fr.fn, fr.block.Index, p.curPos(fr))
+		limit := p.eng.cfg.MaxLoop
+		if p.loopBound > 0 {
+			limit = p.loopBound
+		}
+		if fr.visits[fr.block] > limit && !p.isInitPath && p.initDepth == 0 {
+			p.abort("unwind", "loop bound %d exceeded in %s block %d (%s)", limit, fr.fn, fr.block.Index, p.curPos(fr))
 		}
 		nonPhis := executePhis(fr)
 		for _, instr := range nonPhis {
